@@ -2372,7 +2372,8 @@ impl SubRule {
                     pos.increment(word);
                     Ok(true)
                 } else { Ok(false) },
-                ParseElement::Syllable(stress, tone, var) => self.input_match_syll(captures, state_index, stress, tone, var, word, pos),
+                // the set as a whole is one input element: the caller advances the state index, not the alternative that matched
+                ParseElement::Syllable(stress, tone, var) => self.input_match_syll(captures, &mut state_index.clone(), stress, tone, var, word, pos),
                 ParseElement::SyllBound => if pos.at_syll_start() {
                     captures.push(MatchElement::SyllBound(pos.syll_index, Some(i))); // FIXME: `i` is being unnecessarily reassigned
                     Ok(true)
@@ -2479,7 +2480,8 @@ impl SubRule {
                     pos.increment(word);
                     Ok(true)
                 } else { Ok(false) },
-                VarKind::Syllable(s) => self.input_match_syll_var(captures, state_index , s, mods, word, pos),
+                // the caller advances the state index once the variable has matched; input_match_syll_var advances its own copy
+                VarKind::Syllable(s) => self.input_match_syll_var(captures, &mut state_index.clone(), s, mods, word, pos),
             },
             None => Err(RuleRuntimeError::UnknownVariable(vt.clone())),
         }
